@@ -8,6 +8,7 @@ import ast
 import z3
 from pyvc import *
 from pyvc import loader
+from pyvc.engine import Frame
 from .common import *
 from . import c_slice, c_width, c_export, c_elab
 from .c_width import W
@@ -102,7 +103,6 @@ def obligations():
     tk, ti = loop.target.elts[0].id, loop.target.elts[1].id
     st.locals[tk] = SInt(k)
     st.locals[ti] = inst
-    from pyvc.engine import Frame
     eng.frames.append(Frame(ext, ext.key))
     eng.cuts = []
     try:
@@ -112,6 +112,37 @@ def obligations():
     finally:
         eng.frames.pop()
     obs = []
+    # the guard of the per-element branch: entered only when the connection is exactly n port-widths wide
+    guard = next((nd for nd in ast.walk(ext.node) if isinstance(nd, ast.If) and loop in nd.body), None)
+    if guard is None:
+        info.setdefault("unsupported", []).append("guard of the per-element branch not found")
+    else:
+        g_eng = mk_engine(contracts=c_width.CONTRACTS, schema_extra=dict(c_export.SCHEMA_EXTRA, n="int"))
+        gst = g_eng.new_state()
+        from hdl21.instance import InstanceArray
+        arr = sym_ref(gst, "array", (InstanceArray,))
+        gconn = sym_ref(gst, "conn", (Signal,))
+        gport = sym_ref(gst, "port", (Signal,))
+        gn = gst.heap.get("n", arr.z)
+        gst.assume(z3.And(gn >= 1, gst.heap.get("width", gport.z) >= 1, gst.heap.get("width", gconn.z) >= 1))
+        gst.locals = {"self": sym_ref(gst, "self", (ArrayFlattener,)), "array": arr, "conn": gconn, "port": gport,
+                      "portname": SStr(z3.String("portname")), "module": Opaque("module"), "new_insts": Opaque("insts")}
+        g_eng.frames.append(Frame(ext, ext.key))
+        try:
+            tests = g_eng.ev(guard.test, gst)
+        except Unsupported as e:
+            tests = []
+            info.setdefault("unsupported", []).append(f"guard of the per-element branch: {e}")
+        finally:
+            g_eng.frames.pop()
+        for gi, (gs2, tv) in enumerate(tests):
+            if isinstance(tv, Exc):
+                continue
+            t = tv if isinstance(tv, bool) else g_eng.truth(gs2, tv)
+            goal = z3.Implies(zbool(t), gs2.heap.get("width", gconn.z) == gn * gs2.heap.get("width", gport.z))
+            obs.append(Obligation(f"{KEY}/per-element-guard/p{gi}/post.entered-only-for-n-port-widths", "post",
+                                  list(gs2.pc), goal, KEY, "per-element-guard", gi,
+                                  {"trace": list(gs2.trace), "havoc": list(gs2.ghost.get("havoc", ()))}))
     for pi, (kind, s2, v) in enumerate(outs):
         info["paths"] += 1
         pname = f"{KEY}/per-element-loop/p{pi}"
